@@ -78,6 +78,7 @@ class Shapecheck:
         args = []
         muts = []
         raw = specs.raw_params(fn["path"])
+        inv.RANGE_PARAM[0] = fn["name"] in ("to_range", "get_range", "set_range")
         inv.SELF_KIND[0] = "array" if fn.get("trait_default_of", "").startswith("array::traits") else None
         try:
             for i, p in enumerate(fn["params"]):
@@ -95,7 +96,7 @@ class Shapecheck:
                     args.append(v)
             names = [param_name(p, i) for i, p in enumerate(fn["params"])]
             vals0 = [st.env[a.place[0]] if isinstance(a, VMutRef) else a for a in args]
-            self.entry_assumed[key] = specs.entry_assumptions(fn["path"], names, vals0, st)
+            self.entry_assumed[key] = specs.entry_assumptions(fn["path"], names, vals0, st, self, fr0)
             t0 = time.time()
             import signal
 
